@@ -15,13 +15,25 @@ Definition vq (q : Qc) : val := VL [VZ (Qnum (this q)); VZ (Zpos (Qden (this q))
 Definition vqrule (r : qrule) : val :=
   VL [VS (q_par r); match q_edges r with None => VN | Some es => VL (map VS es) end; vq (q_val r)].
 
-(** (exact_rule, pi, rich, simple, rules as (name, num, den)) *)
-Definition run_nscase (c : bool * list (Z * Z) * coords * coords * list (name * Z * Z)) : val :=
+Definition vqo (o : option Qc) : val := match o with Some q => vq q | None => VN end.
+
+(** (exact_rule, pi, rich, simple, rules as (name, num, den, is_constant)): every rule goes through
+    update_param_rules (same = False) and then update_rule_value reads the number handed to the rich rule *)
+Definition run_nscase (c : bool * list (Z * Z) * coords * coords * list (name * Z * Z * bool)) : val :=
   let '(ex, pis, rich, simple, rs) := c in
   let pi := nth_pi pis in
-  let rules := map (fun r => mkqrule (fst (fst r)) None (mkq (snd (fst r)) (snd r))) rs in
-  VL [match project_not_same ex pi rich simple rules with
-      | MOk new => VL (map vqrule new)
+  let rules := map (fun r : name * Z * Z * bool => let '(n, a, b, k) := r in
+                             if k then mkprule n None true (Some (mkq a b)) None
+                             else mkprule n None false None (Some (mkq a b))) rs in
+  VL [match param_mapping ex rich simple with
       | MErr code => VE code
+      | MOk pm =>
+          match ref_val pi rich with
+          | MErr code => VE code
+          | MOk rho =>
+              VL (map (fun r => VL [VS (p_par r); match p_edges r with None => VN | Some es => VL (map VS es) end;
+                                    vqo (null_rule_value r)])
+                      (flat_map (project_prule pi rho rich pm) (rules ++ [mkprule ref_cell None false None (Some 1%Qc)])))
+          end
       end;
       VB (nested_ok_ns ex rich simple)].
